@@ -43,6 +43,7 @@ def main():
         reason = NOT_APPLICABLE.get(p) or ("claimed in DESIGN.md but its check is not built yet: " + CLAIMS[p]["technique"]
                                            if p in CLAIMS else "no contract within reach")
         na.append({"property_id": p, "reason": reason})
+    n_fixed = sum(1 for l in open(os.path.join(ROOT, "known_findings.txt")) if l.startswith("fixed:"))
     m = {
         "version": 1,
         "setup_cmd": "bin/setup",
@@ -66,7 +67,7 @@ def main():
         "notes": "Technique family: contract-based deductive verification of the real code (Verus 0.2026.09.13, Kani 0.68). "
                  "exit 0 = all obligations discharged; exit 1 + VIOLATION = an obligation discharged on the pinned tree "
                  "(baseline/*.json) is now refuted; exit 2 = undecided (lost anchor, unsupported construct, resource "
-                 "limit, vacuity guard), never an alarm. known_findings.txt lists the three defects repaired by fix: commits.",
+                 "limit, vacuity guard), never an alarm. known_findings.txt lists the %d defects repaired by fix: commits." % n_fixed,
     }
     with open(os.path.join(ROOT, "MANIFEST.json"), "w") as fh:
         json.dump(m, fh, indent=1)
